@@ -98,6 +98,15 @@ func (w *world) newMethod(m int, val disruption.Validator, real bool) disruption
 	}
 }
 
+func indexOfReason(r v1.DisruptionReason) int {
+	for i, x := range reasonNames {
+		if x == r {
+			return i
+		}
+	}
+	return 0
+}
+
 func nodeID(name string) int {
 	var id int
 	fmt.Sscanf(name, "node-%d", &id)
@@ -457,11 +466,21 @@ type caseV struct {
 
 func runValidator(c *kit.Ctx, r *kit.Rand, m int) {
 	pools, nodes, pinned := genWorld(r, m, r.Range(1, 2))
-	// budgets that leave room at first
+	// budgets that leave room at first; two times in three they are reason-scoped, the method's own
+	// reason being the tightest (a validator re-checking another reason's budget would be too lenient)
+	own := methodReason(m)
+	scoped := r.Chance(2, 3)
 	for i := range pools {
 		pools[i].Budgets = []jBudget{{Nodes: fmt.Sprint(r.Range(1, 4))}}
+		if scoped {
+			pools[i].Budgets = scopedBudgets(own, r.Range(2, 4), r.Chance(1, 2))
+		}
 	}
-	w := newWorld(baseTimes[0].UnixNano())
+	if scoped {
+		c.Count("V:" + methodNames[m] + ":reason-scoped-budgets")
+	}
+	// ten seconds before 11:00: a scheduled window can open during the validation delay
+	w := newWorld(scheduleAt.Add(-10 * time.Second).UnixNano())
 	w.build(pools, nodes)
 	pv := &passValidator{}
 	meth := w.newMethod(m, pv, false)
@@ -488,7 +507,17 @@ func runValidator(c *kit.Ctx, r *kit.Rand, m int) {
 		}
 	}
 	for k := r.Intn(4); k > 0 && len(others) > 0; k-- {
-		switch r.Intn(6) {
+		switch r.Intn(9) {
+		case 6: // the 15 s pass: a window scheduled for 11:00 opens
+			evs = append(evs, jEvent{Kind: "clock", Time: scheduleAt.Add(5 * time.Second).UnixNano()})
+		case 7: // somebody tightens the budget of the method's own reason only
+			p := kit.Pick(r, pools)
+			evs = append(evs, jEvent{Kind: "budgets", Pool: p.ID, Budgets: scopedBudgets(own, r.Range(0, 1), false)})
+		case 8: // ... or of another reason only (must not matter)
+			p := kit.Pick(r, pools)
+			other := reasonNames[(r.Intn(2)+1+indexOfReason(own))%3]
+			bs := scopedBudgets(other, 0, false)
+			evs = append(evs, jEvent{Kind: "budgets", Pool: p.ID, Budgets: bs})
 		case 0:
 			evs = append(evs, jEvent{Kind: "ready", Node: kit.Pick(r, others), Ready: false})
 		case 1:
@@ -678,9 +707,34 @@ type caseR struct {
 
 var scheduleAt = time.Date(2026, 9, 23, 11, 0, 0, 0, time.UTC)
 
+// scopedBudgets: one budget per disruption reason, each listing only that reason. The budget of
+// reason own has value ownVal, the other two are looser by 2 and 3. With window, an own-reason-only
+// blocking budget opens at 11:00 for ten minutes.
+func scopedBudgets(own v1.DisruptionReason, ownVal int, window bool) []jBudget {
+	var bs []jBudget
+	loose := ownVal + 2
+	for _, rn := range reasonNames {
+		v := loose
+		if rn == own {
+			v = ownVal
+		} else {
+			loose++
+		}
+		bs = append(bs, jBudget{Nodes: fmt.Sprint(v), Reasons: []string{string(rn)}})
+	}
+	if window {
+		bs = append(bs, jBudget{Nodes: "0", Reasons: []string{string(own)}, Schedule: ptr("0 11 * * *"), Duration: ptr("10m")})
+	}
+	return bs
+}
+
 func genRoundBudgets(r *kit.Rand) []jBudget {
 	var bs []jBudget
-	switch r.Intn(5) {
+	switch r.Intn(8) {
+	case 5, 6: // reason-scoped: every reason has its own value
+		return scopedBudgets(kit.Pick(r, reasonNames), r.Range(0, 2), false)
+	case 7: // ... and a window that blocks exactly one reason opens at 11:00
+		return scopedBudgets(kit.Pick(r, reasonNames), r.Range(1, 3), true)
 	case 0:
 		bs = append(bs, jBudget{Nodes: fmt.Sprint(r.Range(0, 3))})
 	case 1:
@@ -701,6 +755,15 @@ func runRounds(c *kit.Ctx, r *kit.Rand, nOps int) {
 	for i := range pools {
 		if pools[i].ID != 9 {
 			pools[i].Budgets = genRoundBudgets(r)
+		}
+	}
+	if r.Chance(1, 4) {
+		// reason-scoped budgets whose tightest entry is the first method's own reason
+		c.Count("R:world=own-reason-tightest")
+		for i := range pools {
+			if pools[i].ID != 9 {
+				pools[i].Budgets = scopedBudgets(methodReason(m0), r.Range(1, 3), r.Chance(1, 2))
+			}
 		}
 	}
 	if r.Chance(1, 3) {
